@@ -38,7 +38,7 @@ FLOORS = {
               'kind:Choice': 50, 'kind:LA': 50, 'kind:NLA': 50, 'kind:Named': 50, 'kind:NamedList': 50,
               'kind:Over': 50, 'kind:Const': 50, 'kind:Void': 50, 'kind:EOF': 50, 'kind:Dot': 50,
               'kind:SkipTo': 50, 'kind:Empty': 50, 'kind:Call': 50, 'kind:Tok': 50, 'kind:Pat': 50,
-              'kind:Group': 50, 'kind:Seq': 50, 'kind:AssocJoin': 20, 'texts_with_unicode_spaces': 1500, 'textroute_cases': 100, 'sugar:include': 100, 'sugar:based_rule': 100, 'sugar:override_rule': 100, 'default_start_cases': 800, 'wide_cases': 5000, 'kind:PatAbsentGroup': 200, 'kind:TokBeforeUnderscore': 60, 'kind:TokGuarded': 200},
+              'kind:Group': 50, 'kind:Seq': 50, 'kind:AssocJoin': 20, 'texts_with_unicode_spaces': 1500, 'textroute_cases': 100, 'sugar:include': 100, 'sugar:based_rule': 100, 'sugar:override_rule': 100, 'default_start_cases': 800, 'wide_cases': 5000, 'kind:PatAbsentGroup': 200, 'kind:TokBeforeUnderscore': 60, 'kind:TokGuarded': 200, 'kind:NameRenamedAsDictAttribute': 150},
     'thorough': {'accepted_unflagged': 400000, 'textroute_cases': 1000},
 }
 
@@ -225,6 +225,8 @@ def run_random(desc, acc):
             # token texts and separators at the edge of the name guard, patterns whose group may stay out of the match
             F['toks'] = rng.sample(G.WIDE_TOKS, 3) + rng.sample(G.TOKS, 1)
             F['seps'] = [',', '_', '-', 'a']
+            # element names that collide with attributes of dict: documented to get an underscore appended
+            F['name_pool'] = ['n', 'm'] + rng.sample(['keys', 'items', 'values', 'get', 'update', 'pop', 'copy', 'clear'], 3)
             pats = pats[:3] + rng.sample(list(G.GROUP_PATS), 3)
             alphabet = 'abc ,_1-\u00e9'
             acc.count('wide_grammars')
